@@ -2,8 +2,14 @@
   C14 — Serialisation options change the spelling, never the content.  Property theorems only.
 
   Character level: CDATA-section splitting and `unescaped_gt`, for every string.
+  Tree level (Pretty): `C14_pretty_content*` — indentation only adds fields to the token stream, it
+  never changes a token; `C14_pretty_where_*` — where the `Pretty` stack machine grants
+  indentation / a newline (full strength is false: see `C14_pretty_where_Statement`).
 -/
 import XotModel.Lemmas.Entity
+import XotModel.Lemmas.Output
+import XotModel.Lemmas.Pretty
+import XotModel.Lemmas.PrettyWhere
 
 namespace XotModel.Props
 open XotModel XotModel.Gen
@@ -56,5 +62,235 @@ theorem C14_gt_lexsafe (s : Str) : '<' ∉ serializeText true s := by
 /-- Sanity: the pinned examples of the unit tests come out of the model. -/
 example : serializeCdata [']',']','>'] = "<![CDATA[]]]]><![CDATA[>]]>".toList := by decide
 example : serializeText true [']',']','>'] = "]]&gt;".toList := by decide
+
+/-! ### Pretty printing changes no token -/
+
+/-- Erasing the indentation and newline fields of the pretty token stream gives back the plain
+    token stream (same nodes, same events, same texts and space flags), for every tree, start
+    node, parameter set and suppress list, and for arbitrary escaping functions. -/
+theorem C14_pretty_content (esc : Escapers) (env : Env) (pr : TokenParams) (sup : List Nat) (t : Tree)
+    (start : Path) (ks : List (Path × Output × PrettyOutputToken))
+    (h : prettyTokensWith esc env pr sup t start = .ok ks) :
+    tokensWith esc env pr t start = .ok (ks.map erasePretty) := by
+  unfold prettyTokensWith at h
+  unfold tokensWith
+  have := prettyAll_erase esc env pr t sup [] (initStack t start) (genOutputs t start)
+  cases hp : prettyAllWith esc env pr sup t [] (initStack t start) (genOutputs t start) with
+  | ok l =>
+    simp only [hp] at h this
+    cases h
+    rw [this]
+  | err e => simp [hp] at h
+  | panic => simp [hp] at h
+
+/-- Conversely: whenever the plain token stream exists, so does the pretty one, and it erases to it. -/
+theorem C14_pretty_content_conv (esc : Escapers) (env : Env) (pr : TokenParams) (sup : List Nat)
+    (t : Tree) (start : Path) (l : List (Path × Output × OutputToken))
+    (h : tokensWith esc env pr t start = .ok l) :
+    ∃ ks, prettyTokensWith esc env pr sup t start = .ok ks ∧ ks.map erasePretty = l := by
+  unfold tokensWith at h
+  cases hr : renderAllWith esc env pr t (initStack t start) (genOutputs t start) with
+  | ok l' =>
+    simp only [hr] at h
+    cases h
+    obtain ⟨ks, hk, he⟩ := renderAll_lift_pretty esc env pr t sup [] _ _ _ hr
+    exact ⟨ks, by simp [prettyTokensWith, hk], he⟩
+  | err e => simp [hr] at h
+  | panic => simp [hr] at h
+
+/-- The pretty string therefore consists of the plain tokens plus, per token, `2·indentation`
+    spaces in front and at most one line feed behind: nothing else is added or removed. -/
+theorem C14_pretty_string (esc : Escapers) (env : Env) (pr : TokenParams) (sup : List Nat) (t : Tree)
+    (start : Path) (s : Str) (h : serializePrettyWith esc env pr sup t start = .ok s) :
+    ∃ ks : List (Path × Output × PrettyOutputToken),
+      tokensWith esc env pr t start = .ok (ks.map erasePretty) ∧
+      s = ks.flatMap (fun k => prettyTokenBytes k.2.2) ∧
+      ∀ k ∈ ks, prettyTokenBytes k.2.2 =
+        (if k.2.2.indentation > 0 then indentBytes k.2.2.indentation else [])
+          ++ tokenBytes (erasePretty k).2.2 ++ (if k.2.2.newline then prettyNewline else []) := by
+  unfold serializePrettyWith serializePrettyWriteWith bufferToString at h
+  have ho := writePrettyGo_outcome esc env pr t sup [] (initStack t start) (genOutputs t start)
+  cases hr : prettyAllWith esc env pr sup t [] (initStack t start) (genOutputs t start) with
+  | ok ks =>
+    have hk : prettyTokensWith esc env pr sup t start = .ok ks := by simp [prettyTokensWith, hr]
+    refine ⟨ks, C14_pretty_content esc env pr sup t start ks hk, ?_, ?_⟩
+    · rw [writePrettyGo_of_prettyAll_ok esc env pr t sup _ _ _ _ hr] at h
+      simp at h
+      rw [← h]; rfl
+    · intro k _
+      obtain ⟨p, o, ind, sp, tx, nl⟩ := k
+      cases sp <;> simp [prettyTokenBytes, tokenBytes, erasePretty]
+  | err e => rw [hr] at ho; simp only [] at ho; rw [ho] at h; cases h
+  | panic => rw [hr] at ho; simp only [] at ho; rw [ho] at h; cases h
+
+/-! ### Where `Pretty` grants whitespace (the stack machine of pretty.rs)
+
+The stack holds one entry per open element that has children: `Mixed` when it has a text child or
+is named in the suppress list, otherwise `Unmixed(xml:space of the element)`. -/
+
+/-- A newline is granted only outside mixed / suppressed content and outside the scope of
+    `xml:space="preserve"` (innermost `preserve` / `default` decides). -/
+theorem C14_pretty_where_newline (ps : PStack) (h : ps.getNewline = true) :
+    ps.inMixed = false ∧ ps.inSpacePreserve = false := by
+  simpa [PStack.getNewline] using h
+
+/-- Inside mixed or suppressed content (at any depth) there is neither indentation nor a newline. -/
+theorem C14_pretty_where_mixed (ps : PStack) (h : ps.inMixed = true) :
+    ps.getIndentation = 0 ∧ ps.getNewline = false := by
+  simp [PStack.getIndentation, PStack.getNewline, h]
+
+/-- What `StartTagClose` pushes for an element with children. -/
+theorem C14_pretty_where_entry (sup : List Nat) (ps : PStack) (name : Nat) (ks : List Tree)
+    (hc : (Tree.node (.element name) ks).firstChild?.isSome = true) :
+    (prettify sup ps (.node (.element name) ks) .startTagClose).1 =
+      (if hasInlineChild (.node (.element name) ks) || sup.contains name then StackEntry.mixed
+       else StackEntry.unmixed (elementSpace (.node (.element name) ks))) :: ps := by
+  unfold prettify
+  simp only [hc, if_true, Tree.value]
+  by_cases hi : hasInlineChild (.node (.element name) ks) = true
+  · simp [hi]
+  · by_cases hs : sup.contains name = true
+    · have : name ∈ sup := by simpa using hs
+      simp [hi, this]
+    · have : name ∉ sup := by simpa using hs
+      simp [hi, this]
+
+/-- Full-strength placement rule for indentation: none inside a `preserve` scope.  FALSE for the
+    code as written. -/
+def C14_pretty_where_Statement : Prop :=
+  ∀ ps : PStack, ps.inSpacePreserve = true → ps.getIndentation = 0
+
+/-- What the code does instead: inside a `preserve` scope the indentation is frozen at the value it
+    had where the `preserve` element was opened (`below` = the entries under the `Preserve` entry). -/
+theorem C14_pretty_where_frozen (ps : PStack) (h : ps.inSpacePreserve = true) (hm : ps.inMixed = false) :
+    ∃ a below : PStack, ps = a ++ StackEntry.unmixed .preserve :: below ∧ PStack.AllEmpty a ∧
+      ps.getIndentation = below.getIndentation := by
+  obtain ⟨a, below, hs, ha⟩ := PStack.inSpacePreserve_shape h
+  refine ⟨a, below, hs, ha, ?_⟩
+  have hb : PStack.inMixed below = false := by
+    rw [hs, PStack.inMixed_append] at hm
+    have h2 : PStack.inMixed (StackEntry.unmixed .preserve :: below) = false := by
+      cases h1 : PStack.inMixed a <;> simp_all
+    simpa [PStack.inMixed] using h2
+  simp only [PStack.getIndentation, hm, hb]
+  rw [hs, PStack.foldl_indentStep_preserve ha]
+
+/-- `_partial`: the rule holds when the `preserve` element is the outermost open element with
+    children (depth 0) — the only situation the crate's snapshots cover. -/
+theorem C14_pretty_where_partial (a : PStack) (ha : PStack.AllEmpty a) :
+    PStack.getIndentation (a ++ [StackEntry.unmixed .preserve]) = 0 := by
+  have hm : PStack.inMixed (a ++ [StackEntry.unmixed .preserve]) = false := by
+    rw [PStack.inMixed_append, PStack.inMixed_allEmpty ha]; rfl
+  simp only [PStack.getIndentation, hm]
+  rw [PStack.foldl_indentStep_preserve ha]
+  rfl
+
+/-- The defect, as a closed witness: `<doc><a xml:space="preserve"><b>…` — the stack when `<b` is
+    written is `[Preserve(a), Empty(doc)]`: in `preserve` scope, indentation 1. -/
+theorem C14_pretty_where_false : ¬ C14_pretty_where_Statement := by
+  intro h
+  have := h [StackEntry.unmixed .preserve, StackEntry.unmixed .empty] (by decide)
+  revert this
+  decide
+
+/-- The same witness end to end: pretty-printing `<d><a xml:space="preserve"><b><c/></b></a></d>`
+    (names: d=5, a=2, b=3, c=4; `xml:space` is name 0).  Per token: node, indentation, newline.
+    `<b` (node 0.0.1), `<c` and `</b>`, `</a>` are indented by one level inside the `preserve`
+    element: the implementation prints `<a xml:space="preserve">  <b>  <c/>  </b>  </a>`. -/
+example :
+    (prettyTokens {} {} []
+      (.node .document [.node (.element 5) [.node (.element 2)
+        [.node (.attribute 0 Gen.spacePreserve) [], .node (.element 3) [.node (.element 4) []]]]]) []
+      ).okValue?.map (fun l => l.map (fun k => (k.1, k.2.2.indentation, k.2.2.newline)))
+    = some [([0], 0, false), ([0], 0, true),
+            ([0, 0], 1, false), ([0, 0], 0, false), ([0, 0], 0, false),
+            ([0, 0, 1], 1, false), ([0, 0, 1], 0, false),
+            ([0, 0, 1, 0], 1, false), ([0, 0, 1, 0], 0, false), ([0, 0, 1, 0], 0, false),
+            ([0, 0, 1], 1, false), ([0, 0], 1, true), ([0], 0, true)] := by decide
+
+/-! ### The doctype writer -/
+
+/-- Full-strength rule for the doctype (XML 1.0 VC "Root Element Type"): the name written in
+    `<!DOCTYPE name …>` is the name written in the root element's start tag.  FALSE for the code as
+    written: the doctype name is computed with `prefix_for_namespace` (first binding in declaration
+    order), the start tag with `FullnameSerializer::element_fullname` (default namespace
+    preferred, else the most recent binding). -/
+def C14_doctype_Statement : Prop :=
+  ∀ (env : Env) (name : Nat) (ks : List Tree) (dn : Str) (toks : List (Path × Output × OutputToken)),
+    doctypeName env (.node (.element name) ks) [] = .ok dn →
+    tokens env {} (.node (.element name) ks) [] = .ok toks →
+    (toks.head?.map (fun k => k.2.2.text)) = some (fmt Gen.fmtStartTagOpen [dn])
+
+/-- Closed witness: `<a xmlns:r="u" xmlns:q="u"/>` with `a` in namespace `u` serialises as
+    `<!DOCTYPE r:a SYSTEM "d">` followed by `<q:a xmlns:r="u" xmlns:q="u"/>`. -/
+theorem C14_doctype_false : ¬ C14_doctype_Statement := by
+  intro h
+  have := h ⟨[[], ['X'], ['u']], [[], ['x','m','l'], ['p'], ['q'], ['r']], [(['a'], 2)]⟩ 0
+    [.node (.namespace 4 2) [], .node (.namespace 3 2) []] ['r', ':', 'a']
+    [([], .startTagOpen 0, ⟨false, ['<','q',':','a']⟩), ([], .pfx 1 1, ⟨false, []⟩),
+     ([], .pfx 4 2, ⟨true, ['x','m','l','n','s',':','r','=','"','u','"']⟩),
+     ([], .pfx 3 2, ⟨true, ['x','m','l','n','s',':','q','=','"','u','"']⟩),
+     ([], .startTagClose, ⟨false, ['/','>']⟩), ([], .endTag 0, ⟨false, []⟩)]
+    (by decide) (by decide)
+  revert this
+  decide
+
+/-! ### The same rules read off the tree -/
+
+/-- Traversal invariant of the `Pretty` stack: the indentation and newline of every pretty token
+    are `prettify` evaluated on the entries of the open elements (those with children) between the
+    start node and the token's node — `pentriesFor`, an explicit function of the tree; each such
+    element contributes `Mixed` if it has a text child or is suppressed, else `Unmixed(xml:space)`. -/
+theorem C14_pretty_where_tree (esc : Escapers) (env : Env) (pr : TokenParams) (sup : List Nat) (t : Tree)
+    (start : Path) (n : Tree) (inScope : List (Nat × Nat)) (hat : t.at? start = some n)
+    (hs : namespacesInScope t start = some inScope)
+    (ks : List (Path × Output × PrettyOutputToken))
+    (h : prettyTokensWith esc env pr sup t start = .ok ks)
+    (k : Path × Output × PrettyOutputToken) (hk : k ∈ ks) :
+    ∃ rel, k.1 = start ++ rel ∧
+      (k.2.2.indentation, k.2.2.newline) =
+        (prettifyAt sup t (pentriesFor sup k.2.1 n rel) k.1 k.2.1).2 := by
+  obtain ⟨rel, h1, _, h2⟩ := pretty_token_entries sup t esc env pr start n inScope hat hs ks h k hk
+  exact ⟨rel, h1, h2⟩
+
+/-- Mixed content and suppress list, on trees, full strength: a token receives indentation or a
+    newline only if no open element strictly above its node has a text child or is named in the
+    suppress list — at any depth. -/
+theorem C14_pretty_where_tree_mixed (esc : Escapers) (env : Env) (pr : TokenParams) (sup : List Nat)
+    (t : Tree) (start : Path) (n : Tree) (inScope : List (Nat × Nat)) (hat : t.at? start = some n)
+    (hs : namespacesInScope t start = some inScope)
+    (ks : List (Path × Output × PrettyOutputToken))
+    (h : prettyTokensWith esc env pr sup t start = .ok ks)
+    (k : Path × Output × PrettyOutputToken) (hk : k ∈ ks)
+    (hw : k.2.2.indentation > 0 ∨ k.2.2.newline = true) :
+    ∃ rel, k.1 = start ++ rel ∧
+      ∀ a name, OpenAbove n rel a → a.value = .element name → a.firstChild?.isSome = true →
+        hasInlineChild a = false ∧ sup.contains name = false := by
+  obtain ⟨rel, node, hp, hnode, hm⟩ :=
+    pretty_where_notMixed sup t esc env pr start n inScope hat hs ks h k hk hw
+  refine ⟨rel, hp, fun a name ha hv hc => ?_⟩
+  have hopen : entryFor sup a ∈ openEntryOf sup a := by simp [openEntryOf, hv, hc]
+  have hin := openAbove_entry sup n rel a ha _ hopen
+  have hne : entryFor sup a ≠ StackEntry.mixed := by
+    intro he
+    have : PStack.inMixed (pentriesAbove sup n rel) = true := by
+      simp only [PStack.inMixed, List.any_eq_true]
+      exact ⟨_, hin, by simp [he]⟩
+    rw [hm] at this
+    cases this
+  have h3 : ¬ (hasInlineChild a = true ∨ sup.contains name = true) :=
+    fun hor => hne ((entryFor_mixed_iff sup a name hv).mpr hor)
+  simp only [not_or, Bool.not_eq_true] at h3
+  exact h3
+
+/-- Non-vacuity: in `<d><a>t<b/></a></d>` (d=5, a=2, b=3) tokens do receive whitespace (`>` of `d`
+    gets a newline, `<a` indentation 1) while nothing inside the mixed element `a` does. -/
+example :
+    (prettyTokens {} {} []
+      (.node .document [.node (.element 5) [.node (.element 2) [.node (.text ['t']) [], .node (.element 3) []]]]) []
+      ).okValue?.map (fun l => l.map (fun k => (k.1, k.2.2.indentation, k.2.2.newline)))
+    = some [([0], 0, false), ([0], 0, true), ([0, 0], 1, false), ([0, 0], 0, false),
+            ([0, 0, 0], 0, false), ([0, 0, 1], 0, false), ([0, 0, 1], 0, false), ([0, 0, 1], 0, false),
+            ([0, 0], 0, true), ([0], 0, true)] := by decide
 
 end XotModel.Props
